@@ -331,6 +331,13 @@ class Resolver:
             if not out and e.attr in LIST_ATTR_HINTS and self._cls(LIST_ATTR_HINTS[e.attr]):
                 out |= {'list', ('listof', frozenset([self._cls(LIST_ATTR_HINTS[e.attr])]))}
             return out
+        if isinstance(e, ast.Call) and isinstance(e.func, ast.Attribute) and e.func.attr == 'get' and 1 <= len(e.args) <= 2 and not e.keywords:
+            # TABLE.get(key[, default]) of a literal table of classes: one of its classes (or the default)
+            vals = self._dict_values(e.func.value, fi)
+            if vals:
+                out = {('cls', k) for k in vals}
+                out |= self.expr_type(e.args[1], fi, depth + 1) if len(e.args) == 2 else {'none'}
+                return out
         if isinstance(e, ast.Call):
             r = self.resolve_call(e, fi, count=False)
             if r.kind in ('ctor', 'enum'):
